@@ -530,10 +530,11 @@ Print Assumptions C08_param_binding.
          parameters, cards, module path, imports), so with at least ar values on the stack and a free call frame
          the CallFunction continues exactly there, in a new frame {src = address of the CallFunction, dst = the
          next instruction, offset = height - ar}.
-   Not covered: that every Call card yields such an adjacent pair (read off process_card's CCall clause:
-   push_instr FunctionPointer ;; push_instr CallFunction; C08_call_resolves has the pair adjacent in the call
-   skeleton only), and a callee value that reaches CallFunction through other instructions (DynamicCall of an
-   expression): there C08_vm_call_function applies to whatever function object is popped. *)
+   Not covered: that every Call card yields such an adjacent pair IN THE RETURNED PROGRAM (C08_call_card_emits_pair
+   below: process_card of a Call card appends the two next to each other; that the rest of the compilation only
+   prepends and patches jump operands is not proved in this form - C08_call_resolves has the pair adjacent in
+   the call skeleton), and a callee value that reaches CallFunction through other instructions (DynamicCall of
+   an expression): there C08_vm_call_function applies to whatever function object is popped. *)
 Theorem C08_call_executes_designated_body :
   forall F bld reenter M o B,
     compile M o = COk B ->
@@ -583,6 +584,18 @@ Theorem C08_call_executes_designated_body :
                        :: Vm.mkFrame (Vm.fr_src top) (ip + 9 + 1) (Vm.fr_off top) (Vm.fr_clo top) :: rest))).
 Proof. exact VmCallLink.call_executes_designated_body. Qed.
 Print Assumptions C08_call_executes_designated_body.
+
+(* how a Call card ends: FunctionPointer (what resolve_function answers for the name after the arguments were
+   compiled) and CallFunction are appended next to each other *)
+Theorem C08_call_card_emits_pair :
+  forall name args s s',
+    process_card (CCall name args) s = ROk tt s' ->
+    exists s0 m,
+      resolve_function name s0 = ROk m s0 /\
+      cs_code s' = ICallFunction :: IFunctionPointer (fm_handle m) (fm_arity m) :: cs_code s0 /\
+      cs_pc s' = (cs_pc s0 + 9 + 1)%N.
+Proof. exact VmCallLink.call_card_emits_pair. Qed.
+Print Assumptions C08_call_card_emits_pair.
 
 (* ---- examples: Compiler.compile, then Vm.run (2000 instructions) from the fresh state, for every float
    instance and both build profiles; the triple is (outcome, the globals ga gb r gx, the live stack at the end) ---- *)
